@@ -23,6 +23,9 @@ pub enum AttrVal {
     Val(String),
     /// written without quotes (`to=2024-03-01`): the tag grammar records no value for it
     Unquoted(String),
+    /// opened with one quote character and "closed" with the other (`to="2024-… 00:00:00'`): the
+    /// value never ends, so the grammar records no value; rendered as the last attribute
+    Mismatched(String),
 }
 
 #[derive(Clone, Debug, Serialize, Deserialize, PartialEq)]
@@ -33,6 +36,9 @@ pub struct Elem {
     pub to: Option<AttrVal>,
     #[serde(default)]
     pub name: Option<AttrVal>,
+    /// a repeated `to` attribute written after the first one
+    #[serde(default)]
+    pub to_dup: Option<AttrVal>,
     #[serde(default)]
     pub skip: bool,
     /// unwrap-block: the two wrapper lines (complete lines, with indentation)
@@ -178,10 +184,17 @@ impl Elem {
         let attr = |n: &str, a: &AttrVal| match a {
             AttrVal::Bare => n.to_string(),
             AttrVal::Unquoted(s) => format!("{}={}", n, s),
+            AttrVal::Mismatched(s) => format!("{}={}{}{}", n, q, s, if q == '"' { '\'' } else { '"' }),
             AttrVal::Val(s) => format!("{}={}{}{}", n, q, s, q),
         };
         if let Some(a) = &self.to {
-            v.push(attr("to", a));
+            if !matches!(a, AttrVal::Mismatched(_)) {
+                v.push(attr("to", a));
+            }
+            // a second `to` after the first (the first one is the element's `to`)
+            if let Some(d) = &self.to_dup {
+                v.push(attr("to", d));
+            }
         }
         if let Some(a) = &self.name {
             v.push(attr("name", a));
@@ -202,6 +215,9 @@ impl Elem {
             1 => v.reverse(),
             2 => v.rotate_left(1),
             _ => {}
+        }
+        if let Some(a @ AttrVal::Mismatched(_)) = &self.to {
+            v.push(attr("to", a)); // always last: nothing follows the unterminated value
         }
         v
     }
@@ -709,6 +725,7 @@ impl<'a, 'b> DocGen<'a, 'b> {
             kind,
             to,
             name,
+            to_dup: None,
             skip: self.p.allow_skip && self.rng.chance(1, 12),
             unwrap: None,
             indent: indent.to_string(),
@@ -768,6 +785,7 @@ impl<'a, 'b> DocGen<'a, 'b> {
             kind,
             to,
             name,
+            to_dup: None,
             skip,
             unwrap: None,
             indent: indent.clone(),
